@@ -99,7 +99,7 @@ const FNS: &[&str] = &["fa", "fb", "fc", "fd", "fe"];
 
 /// A form of the generated language. Rendered to source and applied to the
 /// model in lock step.
-fn render(form: &Value) -> String {
+pub fn render(form: &Value) -> String {
     let a = form.as_array().unwrap();
     match a[0].as_str().unwrap() {
         "def" => format!("(define {} {})", a[1].as_str().unwrap(), a[2]),
@@ -132,7 +132,7 @@ fn render(form: &Value) -> String {
     }
 }
 
-fn gen_history(rng: &mut Rng, thorough: bool) -> Value {
+pub fn gen_history(rng: &mut Rng, thorough: bool) -> Value {
     let jit = rng.chance(1, 2);
     let threshold = *rng.pick(&[1u64, 1, 2, 5, 20, 100]);
     let nsteps = if rng.chance(1, 6) {
